@@ -234,6 +234,21 @@ func nodeState(c *core.Ctx, fn *core.Fn) (trueImpliesNil bool) {
 							}
 							return true
 						})
+						// the value may be carried in locals: `reply, err := conn.Do(..); return redigo.String(reply, err)`
+						if depth > 0 {
+							ast.Inspect(n, func(m ast.Node) bool {
+								if id, ok := m.(*ast.Ident); ok {
+									if v, isVar := core.ObjOf(info, id).(*types.Var); isVar && !v.IsField() && v != o && v.Pkg() != nil && v.Parent() != v.Pkg().Scope() {
+										for _, dd := range tt.DefsOf(info, root, v) {
+											if dd.Rhs != nil {
+												origin(dd.Rhs, depth-1)
+											}
+										}
+									}
+								}
+								return true
+							})
+						}
 					}
 					origin(d.Rhs, 2)
 				}
@@ -269,6 +284,13 @@ func nodeState(c *core.Ctx, fn *core.Fn) (trueImpliesNil bool) {
 	if err != nil {
 		c.Undecidedf("R1.node", name+"/table", fn.Decl.Pos(), "cannot extract the decision table: %v", err)
 		return false
+	}
+	// an error whose origin is unknown could be either of the two: nothing can be concluded then
+	for _, a := range tt.Atoms(rows) {
+		if strings.HasPrefix(a, "error#") {
+			c.Undecidedf("R1.node", name+"/table", fn.Decl.Pos(), "the origin of an error that is tested is not recognised as the connection or the INFO command")
+			return false
+		}
 	}
 	universe := []string{"connect-error", "command-error", "reports-master", "reports-slave"}
 	seen := map[string]bool{}
